@@ -32,10 +32,10 @@ def file_lines(d, shape, n):
                 items.append(("Name", ["q"]))
         elif shape == "escapes":
             if G.escapes(d):
-                vals = ["a;b", "c=d,e", "100%", "x&y\tz"]
+                vals = ["a;b", "c=d,e", "100%", "x&y\tz", "bell\x07only", "d\x7fe"]       # the last two: a control character and nothing else to escape
             else:
                 vals = ["a%3Bb", "c%3Dd", "100%25", "x y"]
-            items = [("ID", [fid]), ("tag", [vals[i % 4], vals[(i + 1) % 4]]), ("Name", [vals[(i + 2) % 4]])]
+            items = [("ID", [fid]), ("tag", [vals[i % 4], vals[(i + 1) % 4]]), ("Name", [vals[(i + 2) % len(vals)]])]
         elif shape == "dots_extras":
             items = [("ID", [fid]), ("tag", tag)]
             if i % 3 == 1:
